@@ -371,6 +371,13 @@ class Interp(object):
         load = ast.copy_location(_as_load(s.target), s.target)
         cur = self.eval(load)
         rhs = self.eval(s.value)
+        if isinstance(cur, (frozenset, AList, ADict)) and isinstance(s.op, (ast.BitOr, ast.BitAnd, ast.Sub, ast.BitXor, ast.Add)):
+            # in-place operator on a mutable container (sets folded from module/class constants are frozensets here)
+            obj = cur
+            if isinstance(cur, frozenset):
+                from sa.calls import SharedSet
+                obj = SharedSet(cur)
+            self.effect('mutate', s, {'obj': obj, 'op': 'augassign'})
         v = self.binop(s.op, cur, rhs, s)
         self.assign(s.target, v, s, aug=True)
 
@@ -873,6 +880,11 @@ class Interp(object):
         try:
             v = self.P.fold(expr, owner.module, owner)
             v = self.models.lift_shared(v, '%s.%s' % (owner.name, name))
+            hooks = getattr(self, 'open_empty_class_containers', ())
+            if isinstance(v, ADict) and not v.items and owner.qualname in hooks:
+                # an empty class-level mapping is an extension hook: a subclass may fill it
+                v.open = True
+                v.taint = frozenset(['SUBCLASS'])
         except Unfoldable:
             v = self.models.eval_shared_expr(self, owner.module, owner, expr, '%s.%s' % (owner.name, name))
         self.class_attr_objs[key] = v
